@@ -98,6 +98,9 @@ struct Pat {
     negs: Vec<(usize, Option<P>)>,
     max_runs: usize,
     max_kleene: u32,
+    max_results: usize,
+    /// a self-referencing `all` filter on a non-last step (enumeration at completion): streams are kept short
+    deferred: bool,
     form: Form,
 }
 
@@ -119,7 +122,7 @@ impl Ev {
 
 impl Pat {
     fn header(&self, prop: &str) -> String {
-        let mut s = format!("new {} mr={} mk={} part={}", prop, self.max_runs, self.max_kleene, self.partition.clone().unwrap_or("_".into()));
+        let mut s = format!("new {} mr={} mk={} mx={} part={}", prop, self.max_runs, self.max_kleene, self.max_results, self.partition.clone().unwrap_or("_".into()));
         for st in &self.steps {
             s.push_str(&format!(" ; step {} {} {} {}", TYPES[st.ty], st.alias.clone().unwrap_or("_".into()),
                 if st.kleene { "k" } else { "e" }, st.pred.as_ref().map(|p| p.model()).unwrap_or("_".into())));
@@ -136,7 +139,7 @@ impl Pat {
             if st.kleene { SasePattern::KleenePlus(Box::new(ev)) } else { ev }
         }).collect();
         let pat = if steps.len() == 1 { steps.pop().unwrap() } else { SasePattern::Seq(steps) };
-        let mut eng = SaseEngine::new(pat).with_max_runs(self.max_runs).with_max_kleene_events(self.max_kleene);
+        let mut eng = SaseEngine::new(pat).with_max_runs(self.max_runs).with_max_kleene_events(self.max_kleene).with_max_enumeration_results(self.max_results);
         if let Some(k) = &self.partition { eng = eng.with_partition_by(k.clone()); }
         for (t, p) in &self.negs { eng.add_negation(TYPES[*t].to_string(), p.as_ref().map(|p| p.sase())); }
         eng
@@ -144,7 +147,7 @@ impl Pat {
 
     /// VPL text of the intended pattern, if this pattern can be written in the chosen form
     fn vpl(&self) -> Option<String> {
-        if self.max_runs != 10000 || self.max_kleene != 20 { return None; }
+        if self.max_runs != 10000 || self.max_kleene != 20 || self.max_results != 10000 { return None; }
         let mut src = String::new();
         let emit: Vec<String> = self.steps.iter().filter_map(|s| s.alias.clone()).map(|a| format!("{a}_i: {a}.i")).collect();
         let emit = if emit.is_empty() { "z: 1".to_string() } else { emit.join(", ") };
@@ -271,7 +274,46 @@ fn gen_pattern(rng: &mut Rng, allow_all: bool) -> Pat {
         else if n >= 2 && all_free { Form::DerivedFirst } else { Form::None }
     } else if all_free && all_aliased && rng.chance(1, 4) { Form::SequenceDecl }
     else if n >= 2 { Form::Arrow } else { Form::None };
-    Pat { steps, partition, negs, max_runs, max_kleene, form }
+    Pat { steps, partition, negs, max_runs, max_kleene, max_results: 10000, deferred: false, form }
+}
+
+/// `… -> all X where <self-referencing filter> as x -> …`: exactly one `all` step, neither first nor last;
+/// later filters and `.not` clauses do not mention its alias (Model/Sase.lean `Pat.deferredOK`)
+fn gen_deferred_pattern(rng: &mut Rng) -> Pat {
+    let n = if rng.chance(2, 3) { 3 } else { 4 };
+    let ki = rng.range(1, n as i64 - 2) as usize;
+    let ntypes = rng.range(2, 4) as u64;
+    let names = ["a", "b", "c", "d"];
+    let mut steps: Vec<Step> = Vec::new();
+    let mut aliases: Vec<String> = Vec::new();      // aliases later filters may mention
+    for j in 0..n {
+        let ty = rng.below(ntypes) as usize;
+        if j == ki {
+            let own = names[j].to_string();
+            let field = rng.pick(&["x", "x", "y"]).to_string();
+            let selfp = P::Ref(field.clone(), *rng.pick(&OPS), own.clone(), field);
+            let pred = match rng.below(4) {
+                0 => P::And(Box::new(selfp), Box::new(gen_pred(rng, 1, &aliases, &None))),
+                1 => P::Or(Box::new(gen_pred(rng, 1, &aliases, &None)), Box::new(selfp)),
+                _ => selfp,
+            };
+            steps.push(Step { ty, pred: Some(pred), alias: Some(own), kleene: true });
+        } else {
+            let alias = if rng.chance(9, 10) { Some(names[j].to_string()) } else { None };
+            let pred = if j > 0 && rng.chance(1, 2) { Some(gen_pred(rng, 1, &aliases, &None)) } else { None };
+            steps.push(Step { ty, pred, alias: alias.clone(), kleene: false });
+            if let Some(a) = alias { aliases.push(a); }
+        }
+    }
+    let partition = if rng.chance(1, 4) { Some("k".to_string()) } else { None };
+    let mut negs = Vec::new();
+    if rng.chance(1, 3) {
+        let t = rng.below(4) as usize;
+        let p = if rng.chance(1, 2) { Some(gen_pred(rng, 1, &aliases, &None)) } else { None };
+        negs.push((t, p));
+    }
+    let (max_kleene, max_results) = if rng.chance(1, 4) { (rng.range(1, 4) as u32, rng.range(1, 5) as usize) } else { (20, 10000) };
+    Pat { steps, partition, negs, max_runs: 10000, max_kleene, max_results, deferred: true, form: Form::Arrow }
 }
 
 fn gen_fields(rng: &mut Rng) -> Vec<(String, V)> {
@@ -421,6 +463,7 @@ fn count_pattern(ctx: &mut Ctx, pat: &Pat) {
     ctx.count(&format!("pattern.steps={}", pat.steps.len()));
     ctx.count(&format!("pattern.form={:?}", pat.form));
     if pat.steps.iter().any(|s| s.kleene) { ctx.count("pattern.has-all"); }
+    if pat.deferred { ctx.count("pattern.deferred-enumeration"); }
     if pat.steps.last().map(|s| s.kleene && s.pred.as_ref().map(|p| p.self_ref(&s.alias)).unwrap_or(false)).unwrap_or(false) { ctx.count("pattern.trailing-all-selfref"); }
     if pat.partition.is_some() { ctx.count("pattern.partitioned"); }
     if !pat.negs.is_empty() { ctx.count("pattern.not"); }
@@ -439,7 +482,7 @@ fn fixed_patterns(allow_all: bool) -> Vec<Pat> {
     let refp = |f: &str, op: Op, a: &str| P::Ref(f.into(), op, a.into(), f.into());
     let cmp = |f: &str, op: Op, v: i64| P::Cmp(f.into(), op, V::I(v));
     let base = |steps: Vec<Step>, part: bool, negs: Vec<(usize, Option<P>)>, form: Form| Pat {
-        steps, partition: if part { Some("k".into()) } else { None }, negs, max_runs: 10000, max_kleene: 20, form };
+        steps, partition: if part { Some("k".into()) } else { None }, negs, max_runs: 10000, max_kleene: 20, max_results: 10000, deferred: false, form };
     let mut v = vec![
         // one-step pattern
         base(vec![st(0, "a", false, None)], false, vec![], Form::SequenceDecl),
@@ -463,6 +506,12 @@ fn fixed_patterns(allow_all: bool) -> Vec<Pat> {
             base(vec![st(0, "a", true, None), st(1, "b", true, None)], true, vec![], Form::Arrow),
             base(vec![st(0, "a", true, None)], false, vec![], Form::None),
         ]);
+        // enumeration at completion: self-referencing `all` filter on a middle step
+        let mut d1 = base(vec![st(0, "a", false, None), st(1, "b", true, Some(refp("x", Op::Gt, "b"))), st(2, "c", false, None)], false, vec![], Form::Arrow);
+        d1.deferred = true;
+        let mut d2 = base(vec![st(0, "a", false, None), st(1, "b", true, Some(P::And(Box::new(refp("x", Op::Ge, "b")), Box::new(refp("x", Op::Gt, "a"))))), st(2, "c", false, Some(refp("y", Op::Eq, "a")))], true, vec![(3, None)], Form::Arrow);
+        d2.deferred = true;
+        v.push(d1); v.push(d2);
     }
     v
 }
@@ -481,7 +530,7 @@ pub fn run(ctx: &mut Ctx, name: &str) {
     let (programs, streams, maxlen) = if thorough { (3000, 30, 24) } else { (260, 14, 12) };
     let mut pats = fixed_patterns(allow_all);
     let nfixed = pats.len();
-    for _ in 0..programs { let p = gen_pattern(&mut ctx.rng, allow_all); pats.push(p); }
+    for _ in 0..programs { let p = if allow_all && ctx.rng.chance(1, 7) { gen_deferred_pattern(&mut ctx.rng) } else { gen_pattern(&mut ctx.rng, allow_all) }; pats.push(p); }
     for (pi, pat) in pats.iter().enumerate() {
         count_pattern(ctx, pat);
         let program = pat.vpl().map(|src| vpl_parse(&src));
@@ -491,7 +540,7 @@ pub fn run(ctx: &mut Ctx, name: &str) {
         ctx.count("nfa-dump");
         let ns = if pi < nfixed { streams * 3 } else { streams };
         for _ in 0..ns {
-            let len = ctx.rng.range(1, maxlen as i64) as usize;
+            let len = ctx.rng.range(1, if pat.deferred { 9 } else { maxlen as i64 }) as usize;
             let evs = gen_stream(&mut ctx.rng, pat, len);
             run_scenario(ctx, &rt, name, pat, &program, &evs);
         }
